@@ -176,12 +176,25 @@ func c17FmapString(h *H) {
 	B := ft.Out(0)
 	strs := allStrings(envInt("VERIF_STRLEN", 4))
 	h.St.Pool = len(strs)
+	// for a rune-valued f the results are arbitrary int32 values: negative ones,
+	// surrogates and values beyond MaxRune too (they are numbers, not text)
+	sentinel := func(seed string) reflect.Value {
+		if B.Kind() != reflect.Int32 {
+			return sentinelFor(B, seed, h.Sc)
+		}
+		hh := fnv.New32a()
+		hh.Write([]byte(seed))
+		menu := []int64{-1, -48, 0xD800, 0xDFFF, 0x110000, 1179648, 'A', 0x65E5, 0, 0xFFFD}
+		v := reflect.New(B).Elem()
+		v.SetInt(menu[int(hh.Sum32())%len(menu)])
+		return v
+	}
 	for _, s := range strs {
 		var log []rune
 		fn := reflect.MakeFunc(ft, func(args []reflect.Value) []reflect.Value {
 			r := rune(args[0].Int())
 			log = append(log, r)
-			return []reflect.Value{sentinelFor(B, fmt.Sprintf("%d|%d", len(log), r), h.Sc)}
+			return []reflect.Value{sentinel(fmt.Sprintf("%d|%d", len(log), r))}
 		})
 		h.St.States++
 		res, pan := Call(f, fn, reflect.ValueOf(s).Convert(f.Type().In(1)))
@@ -200,7 +213,7 @@ func c17FmapString(h *H) {
 			bad = fmt.Sprintf("f saw %q, the runes are %q", log, want)
 		} else {
 			for i, r := range want {
-				if Canon(out.Index(i)) != Canon(sentinelFor(B, fmt.Sprintf("%d|%d", i+1, r), h.Sc)) {
+				if Canon(out.Index(i)) != Canon(sentinel(fmt.Sprintf("%d|%d", i+1, r))) {
 					bad = fmt.Sprintf("element %d of the output is not f(rune %d)", i, i)
 					break
 				}
